@@ -29,6 +29,9 @@ ConvND(nd, x, w, biasOpt, stride, pad, dil, groups) ==
 \* pooling over the last two axes; windows that overhang are clipped to the input (no padding)
 PoolOut(n, k, s, ceil) == LET o == IF ceil THEN CeilDiv(n - k, s) + 1 ELSE ((n - k) \div s) + 1
                           IN IF ceil /\ (o - 1) * s >= n THEN o - 1 ELSE o
+\* sum of the third components of a finite set of triples (order irrelevant)
+RECURSIVE SumTriples(_)
+SumTriples(S) == IF S = {} THEN 0 ELSE LET t == CHOOSE u \in S : TRUE IN t[3] + SumTriples(S \ {t})
 Fact(n) == IF n <= 1 THEN 1 ELSE IF n = 2 THEN 2 ELSE IF n = 3 THEN 6 ELSE 24
 Pool2d(kind, x, k, s, ceil) ==      \* kind "max" | "avg" (avg scaled by Fact(kh) * Fact(kw))
     LET d == Len(x.shape) IN
@@ -41,11 +44,7 @@ Pool2d(kind, x, k, s, ceil) ==      \* kind "max" | "avg" (avg scaled by Fact(kh
                     ys == {y \in y0..(y0 + k[1] - 1) : y < H}  xs == {xx \in x0..(x0 + k[2] - 1) : xx < W}
                     vals == {<<y, xx, At(x, SubSeq(i, 1, d - 2) \o <<y, xx>>)>> : y \in ys, xx \in xs}
                 IN IF kind = "max" THEN (CHOOSE v \in {t[3] : t \in vals} : \A u \in {t[3] : t \in vals} : v >= u)
-                   ELSE (M \div Cardinality(vals)) * SumSeq(SetToSeqNN({t : t \in vals})))
-\* sum of the third components of a finite set of triples (order irrelevant)
-RECURSIVE SumTriples(_)
-SumTriples(S) == IF S = {} THEN 0 ELSE LET t == CHOOSE u \in S : TRUE IN t[3] + SumTriples(S \ {t})
-SetToSeqNN(S) == <<SumTriples(S)>>
+                   ELSE (M \div Cardinality(vals)) * SumTriples(vals))
 
 Linear(x, w, biasOpt) ==
     LET d == Len(x.shape) IN
